@@ -53,7 +53,8 @@ def run_case(case):
 		if case.get('mixed_dtypes') and n:
 			# a list-backed collection may hold arrays of different integer types (and empty arrays of any type): values must survive exactly
 			pool = ['u8', 'i8', 'u4', 'i4', 'u2'] if k <= 16 else ['u8', 'i8']
-			sigs = [s_.astype(rnd.choice(pool)) if len(s_) and int(s_.max()) < 2 ** 63 else s_ for s_ in sigs]
+			fitting = lambda s_: [d_ for d_ in pool if len(s_) == 0 or int(s_.max()) <= np.iinfo(d_).max]       # only dtypes that hold the values
+			sigs = [s_.astype(rnd.choice(fitting(s_))) if fitting(s_) else s_ for s_ in sigs]
 			sigs[rnd.randrange(n)] = np.array([])                      # float64, empty
 			if k >= 27:
 				sigs[0] = np.array(sorted({2 ** 53 + 1, 2 ** 53 + 3, top - 1, top - 2, 5}), dtype='u8')
